@@ -20,7 +20,11 @@ FLAGSETS = {
     'plainO0': ('g++', ['-O0']),
     'plainO1': ('g++', ['-O1']),
     'plainO3': ('g++', ['-O3']),
+    'plainOs': ('g++', ['-Os']),
+    # what a release build of an application typically uses: FMA contraction allowed (only for monitors whose oracle is integer-based)
+    'plainO2fma': ('g++', ['-O2', '-mavx2', '-mfma', '-ffp-contract=fast']),
     'clang':   ('clang++-14', ['-O2']),
+    'clangOs': ('clang++-14', ['-Os']),
     'clangO0': ('clang++-14', ['-O0']),
     'gsan':    ('g++', SAN_G),
     'csan':    ('clang++-14', SAN_C),
